@@ -158,7 +158,7 @@ Qed.
 
 (* the RFC 768 case occurs: a UDP segment whose checksum is computed as 0 and stored as 0xffff *)
 Example C24_udp_zero_checksum_case :
-  let pkt := ex_udp6 [222; 130] in
+  let pkt := ex_udp6 [246; 103] in
   wf_udp pkt 48 40 2 /\
   exists s, segment_udp pkt 48 40 2 = Some [s] /\ rd16 s 46 = 65535 /\
             csum16 (pseudo_hdr false s IPPROTO_UDP 10 ++ wr16 (skipn 40 s) 6 0) 0 = 0.
